@@ -21,6 +21,11 @@ def thread_scenario(rng):
         if rng.random() < 0.5: cmds.append("cb reject")
         cmds += [st["read"], "dump 0", "getall 0"]
         if st["hist"]: cmds.append(st["hist"])
+    if rng.random() < 0.5:
+        # per-handle option strings with lists, then a layered read through the handle (private tree)
+        st2 = laylib.setup(rng, mode=rng.choice([1, 2, 2, 3]))
+        cmds += st2["cmds"] + st2["pre"] + ["opts 0", st2["read"], "dump 0"]
+        cmds += ["newopts 5 " + enc(b"PARSING_DIRS=/p1:/p2/x:/p3;CONFIG_DIRS=.d:/conf.d:.conf.d;JOIN_SAME_ENTRIES=1"), "opts 5"]
     cmds.append(gens.start_cmd(rng, 1))
     for _ in range(rng.randrange(5, 40)):
         x = rng.random()
@@ -59,10 +64,17 @@ def split_threads(out):
         elif cur is not None and ln and ln != "reset": cur.append(ln)
     return res
 
-def races(stderr):
-    """[(location, summary)] of the ThreadSanitizer reports"""
+def races(stderr, unattributed=None):
+    """[(location, summary)] of the ThreadSanitizer reports in which a frame of the library (lib/*.c, util/*.c of the
+    tree under test) takes part.  The property speaks about accesses the LIBRARY makes; a report whose stacks lie
+    entirely in the harness, the sanitizer runtime or the uninstrumented C library (whose internal locks
+    ThreadSanitizer cannot see) is counted in `unattributed` and shown in the evidence, not raised."""
     out = []
+    libdirs = (os.path.join(vlib.REPO, "lib") + "/", os.path.join(vlib.REPO, "util") + "/")
     for rep in stderr.split("WARNING: ThreadSanitizer:")[1:]:
+        if not any(d in rep for d in libdirs):
+            if unattributed is not None: unattributed.append(rep.split("\n")[0].strip())
+            continue
         m = re.search(r"Location is global '([^']+)'", rep)
         loc = m.group(1) if m else None
         if loc is None:
@@ -87,7 +99,7 @@ def check(tier, seed):
         vlib.write_evidence(pid, tier, seed, cov, time.time() - t0, 1)
         print("VIOLATION property=%s replay=%s no-failing-input-found" % (pid, p)); return 1
     rounds = 36 if tier == "quick" else 400
-    viol = None; nthreads = 0; allraces = {}
+    viol = None; nthreads = 0; allraces = {}; unattributed = []
     samples = []
     for r in range(rounds):
         k = rng.choice([2, 3, 4, 8, 16])
@@ -98,7 +110,7 @@ def check(tier, seed):
         if out is None or rc != 0:
             viol = (scen, "threaded run ended abnormally: %s %s" % (rc, se[-800:])); break
         got = split_threads(out)
-        for loc, summ in races(se):
+        for loc, summ in races(se, unattributed):
             allraces[loc] = allraces.get(loc, 0) + 1
             if loc not in EXEMPT:
                 rep = next((r for r in se.split("WARNING: ThreadSanitizer:")[1:] if not any(e in r for e in EXEMPT)), "")
@@ -114,7 +126,7 @@ def check(tier, seed):
         if viol: break
         if r < 2: samples.append([c[:80] for c in scen[0][:5]])
     cov.update(evaluations=nthreads, distinct_nontrivial=nthreads, rule=RULE, samples=samples or [["(none)"]],
-               races_seen=allraces, traces_validated_against_impl=nthreads if not viol else 0)
+               races_seen=allraces, tsan_reports_without_library_frame=unattributed[:20], traces_validated_against_impl=nthreads if not viol else 0)
     rc = 0
     if viol or not ps["ok"]:
         if viol:
